@@ -67,21 +67,21 @@ class ParseUserData:
             if userDataParserMod in userDataParsers:
                 cls = userDataParsers[userDataParserMod]
             else:
-                cls = importlib.import_module(userDataParserMod)
+                # Only a failed import marks the module as not found; an
+                # ImportError raised while a parser runs is a parser failure.
+                try:
+                    cls = importlib.import_module(userDataParserMod)
+                except ImportError:
+                    # No print for informational purposes, this is encountered often, e.g. PHYP
+                    cls = None
                 userDataParsers[userDataParserMod] = cls
             if self.data:
                 mv = memoryview(self.data)
                 if cls is None:
-                    # The module, which was previously checked, is not found.
+                    # The module is not found.
                     return json.dumps(hexdump(mv))
                 else:
                     return cls.parseUDToJson(self.subType, self.version, mv)
-        except ImportError:
-            userDataParsers[userDataParserMod] = None
-            # No print for informational purposes, this is encountered often, e.g. PHYP
-            if self.data:
-                mv = memoryview(self.data)
-                return json.dumps(hexdump(mv))
         except Exception as e:
             d = dict()
             # in case we do NOT have data, dump the Error at a minimum
